@@ -347,5 +347,6 @@ func VerifC05_TopicCloseWithBusyPump() {
 		verifrt.Assert(found == 1, "every-queued-message-is-on-disk-exactly-once-after-close")
 	}
 	verifrt.Reach("sym:pump-moved-some-before-the-close", len(cb.items) > 0) // schedule-dependent: not replayed natively
-	verifrt.Reach("some-flushed-by-the-topic", len(tb.items) > 0)
+	verifrt.Reach("sym:some-flushed-by-the-topic", len(tb.items) > 0) // schedule-dependent as well
+	verifrt.Reach("closed-with-a-backlog", err == nil && len(tb.items)+len(cb.items) == k)
 }
